@@ -114,6 +114,7 @@ def _c10():
 
 def _c11():
     return [
+        ("R-AOF-OPENMODE", "the function that opens the file at the log path and stores it as the writer opens it in append mode (never truncate / plain write)", rules_aof.rule_openmode),
         ("R-AOF-SET", "every dispatcher arm that can reach a dataset mutator is in the write set (AOF, replication, auto-save share it); every write-set name has an arm", rules_aof.rule_set),
         ("R-AOF-PATH", "every mutator call site reachable from the event loop lies under process_normal_command's append hook, which is gated by is_write_command and precedes the dispatch", rules_aof.rule_path),
         ("R-AOF-ONCE", "a function that appends to the AOF itself does not also run the command through process_normal_command (whose hook appends it again): every effect is represented once", rules_aof.rule_once),
@@ -230,6 +231,7 @@ def _c17():
 
 def _c06():
     return [
+        ("R-UTF8-UNCHECKED", "from_utf8_unchecked on the command path never takes bytes that arrive from outside (frames, parameters, read buffers)", rules_panic.rule_utf8_unchecked),
         ("R-PANIC", "client- and wire-controlled numbers reach panicking arithmetic, indexing, float->Duration and clock arithmetic only when bounded on every path (taint with direction-aware dominating comparisons)", rules_panic.make_taint_rule({"client", "wire"}, rules_panic.PANIC_KINDS, "client+wire panic sinks")),
         ("R-ALLOC", "memory is reserved according to a client- or wire-controlled number only when bounded by what was received / is present", rules_panic.make_taint_rule({"client", "wire"}, ("alloc",), "client+wire allocation sinks")),
         ("R-RECURSE", "client-driven recursion (RESP parser) carries a bounded depth", rules_panic.rule_recurse),
